@@ -969,7 +969,8 @@ type kr_mode =
 | KPrepend
 
 type killring = { kr_slots : str list; kr_cap : nat; kr_index : nat;
-                  kr_last : kr_action; kr_killing : bool }
+                  kr_last : kr_action; kr_killing : bool; kr_newest : 
+                  nat }
 
 val kr_new : nat -> killring
 
